@@ -30,6 +30,10 @@ class L:
     def __repr__(self):
         return self.name
 
+    def get_b(self):
+        LOG.append(("call", "get_b", self.name))
+        return self._b
+
 
 @dataclass(eq=False)
 class Small(Predicate):
@@ -78,6 +82,8 @@ def term(t, V):
         return getattr(V[t[1]], t[2])
     if k == "attr2":
         return getattr(getattr(V[t[1]], t[2]), t[3])
+    if k == "call":
+        return getattr(V[t[1]], t[2])()
 
 
 def build(e, V):
@@ -107,7 +113,7 @@ def build(e, V):
 def vars_of(e):
     if not isinstance(e, list):
         return set()
-    if e and e[0] in ("var", "attr", "attr2", "pred", "fun"):
+    if e and e[0] in ("var", "attr", "attr2", "pred", "fun", "call"):
         return {e[1]}
     if e and e[0] == "true":
         return {"x"}
@@ -121,6 +127,19 @@ def make(cond, lazy, form="query"):
     if two:
         V["y"] = let(L, gen(Y, "y") if lazy else list(Y), name="y")
     c = build(cond, V)
+    if form.startswith("rule"):
+        from krrood.entity_query_language.symbol_graph import SymbolGraph
+        SymbolGraph().clear()        # inferred instances of earlier evaluations must not be candidates for let(Conc, None)
+    if form == "rule_newvar":
+        # a rule whose refinement condition introduces a variable of its own (y) over a lazily produced domain
+        if "y" not in V:
+            V["y"] = let(L, gen(Y, "y") if lazy else list(Y), name="y")
+        q = an(entity(v := let(Conc, None), c))
+        with q:
+            Add(v, inference(Conc)(p=V["x"]))
+            with refinement(V["y"].a == V["x"].a):
+                Add(v, inference(Conc)(p=V["x"]))
+        return q, V, X, Y, False
     if form == "rule":
         d = entity(v := let(Conc, None), c) if c is not None else entity(let(Conc, None))
         q = an(d)
@@ -262,6 +281,22 @@ def handle(case):
     return handle_with(case, make, rows)
 
 
+def pyeval_simple(e, x):
+    """The base condition of the rule_newvar form on the raw data (conditions over x only)."""
+    k = e[0]
+    if k == "cmp":
+        val = lambda t: t[1] if t[0] == "lit" else getattr(x, "_" + t[2])
+        l, r = val(e[2]), val(e[3])
+        return {"eq": l == r, "ne": l != r, "lt": l < r, "ge": l >= r}[e[1]]
+    if k == "and":
+        return pyeval_simple(e[1], x) and pyeval_simple(e[2], x)
+    if k == "or":
+        return pyeval_simple(e[1], x) or pyeval_simple(e[2], x)
+    if k == "not":
+        return not pyeval_simple(e[1], x)
+    raise ValueError(e)
+
+
 def handle_with(case, make, rows):
     cond = case["cond"]
     form = case.get("form", "query")
@@ -273,6 +308,10 @@ def handle_with(case, make, rows):
     except Exception as ex:
         return {"error": f"{type(ex).__name__}: {ex}"}
     sat = sorted({tuple(r) for r in full})
+    if form == "rule_newvar":
+        # one inferred instance per (x, y) for which the refinement holds; every x has such a y in this world
+        sat = sorted((i + 1, j + 1) for i, xo in enumerate(X) for j, yo in enumerate(Y)
+                     if xo._a == yo._a and pyeval_simple(cond, xo))
     res["sat"] = [list(s) for s in sat]
     res["full"] = full
     for k in case["ks"]:
@@ -301,7 +340,7 @@ def handle_with(case, make, rows):
             again = rows(list(q.evaluate()), V, two, X, Y)
         except Exception as ex:
             again = f"{type(ex).__name__}: {ex}"
-        res["obs"].append({"k": k, "n": [len(X), len(Y) if two else 0], "pulls": [pulls["x"], pulls["y"]], "build": build_events + after_evaluate_call,
+        res["obs"].append({"k": k, "n": [len(X), len(Y) if (two or form == "rule_newvar") else 0], "pulls": [pulls["x"], pulls["y"]], "build": build_events + after_evaluate_call,
                            "got": len(got), "first": rows(got, V, two, X, Y), "error": err, "again": again})
     return res
 
